@@ -31,6 +31,7 @@ type Violation struct {
 	Case    any           `json:"case,omitempty"`
 	Trace   []vrt.TraceEv `json:"trace,omitempty"`
 	Bound   int           `json:"bound,omitempty"`
+	Sites   []string      `json:"sites,omitempty"` // shared-site set the choice list is relative to
 }
 
 type Report struct {
@@ -146,6 +147,7 @@ func RunSched(c *Ctx, sc *vrt.Scenario, sig func(v *vrt.Violation) string) *Repo
 		e.NoPrune = true
 	}
 	if c.Replay != nil {
+		vrt.SetSharedSites(c.Replay.Sites)
 		r, clause := e.Replay(c.Replay.Choices)
 		rep.Executions = 1
 		rep.Transitions = int64(r.Steps)
@@ -171,7 +173,7 @@ func RunSched(c *Ctx, sc *vrt.Scenario, sig func(v *vrt.Violation) string) *Repo
 	rep.Exhaustive = st.Exhaustive
 	rep.CapHit = st.CapHit
 	rep.WallS = st.WallS
-	rep.Extra = map[string]any{"pruned": st.Pruned, "complete": st.Complete, "deadlocks": st.Deadlocks, "max_points": st.MaxPoints, "max_threads": st.MaxThreads}
+	rep.Extra = map[string]any{"pruned": st.Pruned, "complete": st.Complete, "deadlocks": st.Deadlocks, "max_points": st.MaxPoints, "max_threads": st.MaxThreads, "site_discovery_passes": st.SitePasses, "shared_sites": st.SharedSites}
 	// determinism self-check
 	if err := e.CheckDeterminism(nil); err != nil {
 		rep.HarnessError = "default schedule: " + err.Error()
@@ -207,7 +209,7 @@ func RunSched(c *Ctx, sc *vrt.Scenario, sig func(v *vrt.Violation) string) *Repo
 		if rep.CapHit == "" {
 			rep.CapHit = "stopped at first violation"
 		}
-		rep.Violations = append(rep.Violations, Violation{Clause: v.Clause, Sig: sig(v), Msg: v.Msg, Status: v.Status, Choices: v.Choices, Trace: v.Trace, Bound: v.Bound})
+		rep.Violations = append(rep.Violations, Violation{Clause: v.Clause, Sig: sig(v), Msg: v.Msg, Status: v.Status, Choices: v.Choices, Trace: v.Trace, Bound: v.Bound, Sites: vrt.SharedSiteList()})
 	}
 	rep.Replays = e.Stats.Replays
 	return rep
